@@ -170,6 +170,19 @@ func (b *TermBank) App(fn string, res string, args ...*Term) *Term {
 	return b.mk(fn, res, args...)
 }
 
+// CanonBoundVar returns the same bound-variable term for the same (name, sort, depth): contract
+// quantifiers evaluated in different states then yield syntactically comparable formulas.
+func (b *TermBank) CanonBoundVar(name, sortS string, depth int) *Term {
+	key := fmt.Sprintf("canonbv|%s|%s|%d", name, sortS, depth)
+	if t, ok := b.tab[key]; ok {
+		return t
+	}
+	b.n++
+	t := &Term{Op: fmt.Sprintf("%s_c%d", smtSym(name), depth), Sort: sortS, id: b.n, hasBV: true}
+	b.tab[key] = t
+	return t
+}
+
 func (b *TermBank) BoundVar(name, sortS string) *Term {
 	b.n++
 	t := &Term{Op: smtSym(name) + fmt.Sprintf("?%d", b.n), Sort: sortS, id: b.n, hasBV: true}
@@ -579,12 +592,17 @@ func Select(a, i *Term) *Term {
 	if a.Op == "ite" && len(a.Args) == 3 && (a.Args[1].Op == "lambda" || a.Args[2].Op == "lambda") {
 		return Ite(a.Args[0], Select(a.Args[1], i), Select(a.Args[2], i))
 	}
-	// read-over-write simplification with syntactically equal / distinct-constant index
+	// read-over-write simplification with syntactically equal / distinct-constant index, and with
+	// references that are distinct allocation events (see allocStamp)
 	for a.Op == "store" {
 		if a.Args[1] == i {
 			return a.Args[2]
 		}
 		if a.Args[1].val != nil && i.val != nil {
+			a = a.Args[0]
+			continue
+		}
+		if distinctAllocs(a.Args[1], i) {
 			a = a.Args[0]
 			continue
 		}
@@ -621,6 +639,15 @@ func Exists(bound []*Term, body *Term) *Term {
 }
 
 func quant(q string, bound []*Term, body *Term) *Term {
+	key := q + "|"
+	for _, b := range bound {
+		key += fmt.Sprintf("%d,", b.id)
+	}
+	key += fmt.Sprintf("|%d", body.id)
+	if t, ok := B.tab[key]; ok {
+		return t
+	}
+	defer func() {}()
 	B.n++
 	// still has bound vars if body mentions bound vars of an outer quantifier
 	inner := map[int]bool{}
@@ -629,6 +656,7 @@ func quant(q string, bound []*Term, body *Term) *Term {
 	}
 	t := &Term{Op: q, Args: []*Term{body}, Sort: SBool, id: B.n, Bound: bound}
 	t.hasBV = hasOuterBound(body, inner, map[int]bool{})
+	B.tab[key] = t
 	return t
 }
 
@@ -970,7 +998,7 @@ func u2iAxioms(roots []*Term) []*Term {
 			work = append(work, t)
 		}
 		switch t.Op {
-		case "bvult", "bvule", "bvugt", "bvuge":
+		case "bvult", "bvule", "bvugt", "bvuge", "bvslt", "bvsle", "bvsgt", "bvsge":
 			if !t.hasBV {
 				bvAtoms = append(bvAtoms, t)
 			}
@@ -1057,6 +1085,11 @@ func u2iAxioms(roots []*Term) []*Term {
 			}
 			process()
 			var rel *Term
+			s2i := func(u *Term, w int) *Term {
+				half := IntConst(new(big.Int).Lsh(big.NewInt(1), uint(w-1)))
+				return Ite(IntLe(half, u), IntSub(u, two(w)), u)
+			}
+			w := x.Width()
 			switch at.Op {
 			case "bvult":
 				rel = IntLt(ux, uy)
@@ -1066,6 +1099,14 @@ func u2iAxioms(roots []*Term) []*Term {
 				rel = IntLt(uy, ux)
 			case "bvuge":
 				rel = IntLe(uy, ux)
+			case "bvslt":
+				rel = IntLt(s2i(ux, w), s2i(uy, w))
+			case "bvsle":
+				rel = IntLe(s2i(ux, w), s2i(uy, w))
+			case "bvsgt":
+				rel = IntLt(s2i(uy, w), s2i(ux, w))
+			case "bvsge":
+				rel = IntLe(s2i(uy, w), s2i(ux, w))
 			}
 			out = append(out, Eq(at, rel))
 		}
@@ -1073,3 +1114,41 @@ func u2iAxioms(roots []*Term) []*Term {
 	return out
 }
 
+
+// allocStamp recognises reference terms produced by the executor's allocator: base + k where base is an
+// allocation-counter symbol (heaptop0, heaptop!n, lp.heaptop!n), or an input reference (in.*), which
+// denotes an object that existed before the function was entered.
+func allocStamp(t *Term) (base *Term, off int64, kind int) {
+	// kind: 0 unknown, 1 allocation, 2 pre-existing input
+	if t.Sort != SRef {
+		return nil, 0, 0
+	}
+	for t.Op == "bvadd" && len(t.Args) == 2 && t.Args[1].val != nil && t.Args[1].val.IsInt64() {
+		off += t.Args[1].val.Int64()
+		t = t.Args[0]
+	}
+	if len(t.Args) != 0 || t.val != nil || t.hasBV {
+		return nil, 0, 0
+	}
+	switch {
+	case t.Op == "heaptop0" || strings.HasPrefix(t.Op, "heaptop!") || strings.HasPrefix(t.Op, "lp.heaptop!"):
+		return t, off, 1
+	case strings.HasPrefix(t.Op, "in.") && off == 0:
+		return t, 0, 2
+	}
+	return nil, 0, 0
+}
+
+// distinctAllocs: two references that are provably different objects: different allocation events of the
+// same symbolic execution, or a fresh allocation versus an input object.
+func distinctAllocs(a, b *Term) bool {
+	ba, oa, ka := allocStamp(a)
+	bb, ob, kb := allocStamp(b)
+	if ka == 0 || kb == 0 {
+		return false
+	}
+	if ka == 1 && kb == 1 {
+		return ba != bb || oa != ob
+	}
+	return ka != kb // allocation vs input
+}
